@@ -261,8 +261,25 @@ func FreshDecl(t *rapid.T, doc *Doc, kind string) []*Dir {
 		return []*Dir{u}
 	case "URLPATH":
 		// a URL block that declares its own path parameter
-		u := &Dir{ID: nid(), Kw: "URL", Params: []string{"/freshurl2/{fid}"}}
-		pd := &Dir{ID: nid(), Kw: "Path", Schema: &Schema{Notation: "jsight", Root: "obj", Obj: &Obj{Props: []Prop{{Key: "fid", V: Val{Kind: "int", Int: 1}}}}}}
+		// - under a name of its own, or under the name of a parameter that a Path
+		// directive elsewhere in the document describes (parameter names are local
+		// to a path; the two descriptions differ)
+		pname := "fid"
+		var declared []string
+		doc.Flat().Walk(func(d, p *Dir) {
+			if d.Kw == "Path" && d.Schema != nil && d.Schema.Obj != nil {
+				for _, pr := range d.Schema.Obj.Props {
+					if !pr.KeyRef {
+						declared = append(declared, pr.Key)
+					}
+				}
+			}
+		})
+		if len(declared) > 0 && rapid.Bool().Draw(t, "freshReusesParamName") {
+			pname = rapid.SampledFrom(declared).Draw(t, "freshParamName")
+		}
+		u := &Dir{ID: nid(), Kw: "URL", Params: []string{"/freshurl2/{" + pname + "}"}}
+		pd := &Dir{ID: nid(), Kw: "Path", Schema: &Schema{Notation: "jsight", Root: "obj", Obj: &Obj{Props: []Prop{{Key: pname, V: Val{Kind: "str", Str: "fresh-path-value"}}}}}}
 		u.Children = []*Dir{pd, {ID: nid(), Kw: "GET", Children: []*Dir{any200()}}}
 		return []*Dir{u}
 	case "MACRO2":
